@@ -218,7 +218,7 @@ def gen_stream(rng, vcodec, acodec, nvideo, naudio, opts):
     sfi, chan, fps_ms, audio_ms, hevc_mode, multi_ps, start_ts)"""
     o = dict(sizes=[1, 2, 5, 40, 200], bframes=False, inband=0.0, sei=0.2, aud=0.2, jump=None, sfi=4, chan=2, fps_ms=40, audio_ms=None,
              hevc_mode="classic", multi_ps=False, start_ts=0, gop=8, nals_max=3, audio_sizes=[3, 60, 200, 400], vsh_at=0, ash_at=0,
-             audio_start=0, video_start=0, aot=2)
+             audio_start=0, video_start=0, aot=2, resend=0)
     o.update(opts)
     msgs = []
     t0 = o["start_ts"]
@@ -299,6 +299,13 @@ def gen_stream(rng, vcodec, acodec, nvideo, naudio, opts):
         for m in body[idx:]:
             m.ts = max(0, m.ts + delta)
     out = list(body)
+    # encoders repeat their sequence headers mid-stream (same content, the time stamp of the neighbour)
+    for _ in range(o["resend"]):
+        if len(out) >= 2:
+            k = rng.randrange(1, len(out))
+            for h in ([vsh] if vsh is not None else []) + ash:
+                if rng.random() < 0.7:
+                    out.insert(k, Msg(h.ty, out[k - 1].ts, h.tok))
     if vsh is not None:
         out.insert(min(o["vsh_at"], len(out)), vsh)
     for m in ash:
@@ -444,6 +451,11 @@ def gen_cases(tier, rng):
                 t += 1024000.0 / AAC_RATES[sfi]
             yield Case(ts_line("", ms), cls="aac-config")
             yield Case(rtsp_line(ms), cls="rtsp-aac-config")
+    # sequence headers repeated in steady state (identical content): no consumer may see anything of them
+    for vc in ("avc", "hevc"):
+        ms = gen_stream(rng, vc, "aac", 6, 12, dict(sizes=[9, 40], audio_sizes=[8, 30], sei=0, aud=0, resend=3))
+        yield Case(ts_line("", ms), cls="resend-headers")
+        yield Case(rtsp_line(ms), cls="rtsp-resend-headers")
     # a changed AudioSpecificConfig mid-stream (TS follows it, RTSP keeps the first one)
     ms = [Msg(8, 0, hex_tok(bytes([0xAF, 0]) + asc_bytes(2, 4, 2)))] + [audio_msg(rng, "aac", 23 * i, 9) for i in range(18)] + \
          [Msg(8, 500, hex_tok(bytes([0xAF, 0]) + asc_bytes(2, 3, 1)))] + [audio_msg(rng, "aac", 500 + 21 * i, 9) for i in range(5)]
@@ -486,6 +498,8 @@ def gen_cases(tier, rng):
             opts["audio_start"] = rng.choice([100, 1000])
         if rng.random() < 0.15:
             opts["video_start"] = rng.choice([100, 1000])
+        if rng.random() < 0.4:
+            opts["resend"] = rng.choice([1, 2])
         ms = gen_stream(rng, vcodec, acodec, nv, na, opts)
         script = rand_script(rng, len(ms) + 4, rng.choice([0, 0.2, 0.5, 1.0]))
         fl = set(rng.sample(range(len(ms) + 1), k=min(len(ms), rng.choice([0, 0, 1, 3]))))
